@@ -246,9 +246,18 @@ class _Structured:
             self.emit("binop", r.choice(["add", "sub", "mul", "and", "or", "xor"]), d, self.var(), self.var())
         elif k < 0.75:
             self.emit("binoplit8", r.choice(["add", "mul", "and"]), d, self.var(), r.randint(-5, 9))
-        elif k < 0.9:
+        elif k < 0.84:
             self.emit("invoke", "static", [self.var()], ["Lext/U;", "f", "I", ["I"]])
             self.emit("move-result", "", d)
+        elif k < 0.9:
+            # two calls back to back, results combined afterwards; or a result that is never moved
+            self.emit("invoke", "static", [self.var()], ["Lext/U;", "g2", "I", ["I"]])
+            if r.random() < 0.6:
+                self.emit("move-result", "", d)
+                self.emit("invoke", "static", [d], ["Lext/U;", "f", "I", ["I"]])
+                d2 = r.choice(self.locals)
+                self.emit("move-result", "", d2)
+                self.emit("binop", "add", d, d, d2)
         else:
             self.emit("sget", "", d, ["Lext/U;", "g", "I"])
 
@@ -349,13 +358,33 @@ class _Structured:
                 self.emit("label", lh)
                 self.emit("move-exception", self.exc_reg)
                 self.simple()
-                self.emit("label", lafter)
-                if r.random() < 0.3:
-                    self.tries.append([ls, le, [["Ljava/lang/RuntimeException;", lh]], None])
-                elif r.random() < 0.5:
-                    self.tries.append([ls, le, [], lh])
+                kind = r.random()
+                if kind < 0.35:
+                    # several handlers for one try range: each its own block, all joining after the try
+                    extra = []
+                    for ty in r.sample(["Ljava/lang/IllegalStateException;", "Ljava/io/IOException;",
+                                        "Ljava/lang/NullPointerException;", "Ljava/lang/ArithmeticException;"], r.randint(1, 2)):
+                        lx = self.label()
+                        self.emit("goto16", lafter)
+                        self.emit("label", lx)
+                        self.emit("move-exception", self.exc_reg)
+                        self.simple()
+                        if r.random() < 0.3:
+                            self.emit("return", "", self.var())
+                        extra.append([ty, lx])
+                    self.emit("label", lafter)
+                    catchall = None
+                    if r.random() < 0.3:
+                        catchall = extra.pop()[1]
+                    self.tries.append([ls, le, [["Ljava/lang/RuntimeException;", lh]] + extra, catchall])
                 else:
-                    self.tries.append([ls, le, [["Ljava/lang/Exception;", lh]], None])
+                    self.emit("label", lafter)
+                    if kind < 0.55:
+                        self.tries.append([ls, le, [["Ljava/lang/RuntimeException;", lh]], None])
+                    elif kind < 0.75:
+                        self.tries.append([ls, le, [], lh])
+                    else:
+                        self.tries.append([ls, le, [["Ljava/lang/Exception;", lh]], None])
             elif loop and k < 0.975:
                 lskip = self.label()
                 self.jf(self.cond(), lskip)
